@@ -358,12 +358,19 @@ Proof.
       * destruct (IH (S n) w' (y :: acc)) as [H1 H2]; [lia|]. split; [now rewrite H1|exact H2].
 Qed.
 
-Lemma fault_total c w o k ft : fault_ok ft ->
+(* calls on a nested element are the calls on its Identifiable *)
+Definition norm (o : op) : op :=
+  match o with CommitChild x => Commit x | UpdateChild x => Update x | o => o end.
+Definition base_op (o : op) : Prop := match o with CommitChild _ | UpdateChild _ => False | _ => True end.
+Lemma step_norm c f w o : step c f w o = step c f w (norm o).
+Proof. destruct o; reflexivity. Qed.
+
+Lemma fault_total_base c w o k ft : fault_ok ft -> base_op o ->
   let r := step c (Some (k, ft)) w o in
   k < sent_of r ->
   w_sv (world_of r) = w_sv w /\ faulted_outcome o ft (outcome_of r).
 Proof.
-  intros Hok. destruct o; cbn [step]; unfold sent_of, world_of, outcome_of.
+  intros Hok Hb. destruct o; cbn [step]; unfold sent_of, world_of, outcome_of.
   - (* add *) unfold op_add. destruct (nth_error (heap (w_cl w)) x) as [ce|]; [|cbn; lia].
     destruct k; [|destruct (send c _ 0 _ _) as [? ?]; destruct (do_request PUT n) as [?|rp];
                   [cbn; lia|destruct (reply_rev rp); cbn; lia]].
@@ -458,6 +465,19 @@ Proof.
       destruct (H2 Hk') as (e & -> & Hd). cbn [fst snd w_sv]. split; [exact H1|exact Hd].
   - (* ext put *) cbn. lia.
   - (* ext del *) cbn. lia.
+  - destruct Hb.
+  - destruct Hb.
+Qed.
+
+Lemma fault_total c w o k ft : fault_ok ft ->
+  let r := step c (Some (k, ft)) w o in
+  k < sent_of r ->
+  w_sv (world_of r) = w_sv w /\ faulted_outcome o ft (outcome_of r).
+Proof.
+  intros Hok. destruct o;
+    match goal with |- context [step _ _ _ ?o'] => first [exact (fault_total_base c w o' k ft Hok I)|idtac] end.
+  - exact (fault_total_base c w (Update x) k ft Hok I).
+  - exact (fault_total_base c w (Commit x) k ft Hok I).
 Qed.
 
 (* ---------- the store as a map (no second actor, no faults) ------------------------------------------ *)
@@ -925,13 +945,15 @@ Proof.
 Qed.
 
 (* ---- histories *)
-Definition op_wf (w : world) (o : op) : Prop :=
+Definition op_wf0 (w : world) (o : op) : Prop :=
   match o with
   | Add x | Modify x _ | Commit x | Update x | Discard x _ | ContainsObj x => cellw w x <> None
   | GetId i | ContainsId i => legal i = true
   | Len | Iter => True
   | ExtPut _ _ | ExtDel _ => False        (* no second actor *)
+  | UpdateChild _ | CommitChild _ => False   (* normalised away *)
   end.
+Definition op_wf (w : world) (o : op) : Prop := op_wf0 w (norm o).
 Fixpoint wf_run (c : cfg) (w : world) (h : list op) : Prop :=
   match h with
   | [] => True
@@ -941,7 +963,7 @@ Definition run_ops (c : cfg) (w : world) (h : list op) : world :=
   fold_left (fun w o => world_of (step c None w o)) h w.
 
 (* what a map would answer, and how it changes: m = absmap before, m' = absmap after *)
-Definition step_spec (c : cfg) (w : world) (o : op) (r : res) : Prop :=
+Definition step_spec0 (c : cfg) (w : world) (o : op) (r : res) : Prop :=
   let m := absmap w in
   let m' := absmap (world_of r) in
   let same := forall j, m' j = m j in
@@ -982,16 +1004,18 @@ Definition step_spec (c : cfg) (w : world) (o : op) (r : res) : Prop :=
                                 forall i, In i keys <-> m i <> None
   | Iter => same /\ exists l keys, outcome_of r = OCells l /\ NoDup keys /\ (forall i, In i keys <-> m i <> None) /\
       Forall2 (fun y i => exists ce, cellw (world_of r) y = Some ce /\ c_id ce = i /\ m i = Some (c_val ce)) l keys
-  | ExtPut _ _ | ExtDel _ => True
+  | ExtPut _ _ | ExtDel _ | UpdateChild _ | CommitChild _ => True
   end.
+(* update() / commit() on a nested element are specified as update() / commit() of the Identifiable *)
+Definition step_spec (c : cfg) (w : world) (o : op) (r : res) : Prop := step_spec0 c w (norm o) r.
 
 Lemma absmap_live w i : absmap w i <> None <-> live (w_sv w) i <> None.
 Proof. unfold absmap. destruct (live (w_sv w) i); cbn; split; congruence. Qed.
 
-Lemma step_ok c w o : Inv c w -> op_wf w o ->
-  Inv c (world_of (step c None w o)) /\ step_spec c w o (step c None w o).
+Lemma step_ok0 c w o : Inv c w -> op_wf0 w o ->
+  Inv c (world_of (step c None w o)) /\ step_spec0 c w o (step c None w o).
 Proof.
-  intros HI Hwf. destruct o; cbn [op_wf] in Hwf; unfold step_spec; cbn zeta.
+  intros HI Hwf. destruct o; cbn [op_wf0] in Hwf; unfold step_spec0; cbn zeta.
   - destruct (cellw w x) as [ce|] eqn:Hx; [|congruence]. destruct (add_ok c w x ce HI Hx) as [HI' Hs].
     split; [exact HI'|]. intros ce' [= <-]. destruct (absmap w (c_id ce)); [|exact Hs].
     destruct Hs as [Ho Hw]. split; [exact Ho|]. now rewrite Hw.
@@ -1026,7 +1050,12 @@ Proof.
       split; apply Permutation_in; [apply isort_perm|symmetry; apply isort_perm].
   - contradiction.
   - contradiction.
+  - contradiction.
+  - contradiction.
 Qed.
+Lemma step_ok c w o : Inv c w -> op_wf w o ->
+  Inv c (world_of (step c None w o)) /\ step_spec c w o (step c None w o).
+Proof. intros HI Hwf. unfold step_spec. rewrite step_norm. now apply step_ok0. Qed.
 
 Lemma Inv_run c : forall h w, Inv c w -> wf_run c w h -> Inv c (run_ops c w h).
 Proof.
